@@ -137,3 +137,29 @@ reg("C15",
     "for ITS OWN arguments (entered nodes, received arguments, returned tokens); dag.results may only gain setup results; an executed executor refuses to run again; an executor whose run failed either refuses or runs its complete selection. "
     "states = operations executed. non-trivial = histories with >= 1 operation before the probe",
     "depth <= 2 (all), depth 3 restricted to histories containing a failing operation and an executor run", "depth <= 3 (all)", HIST_ASSUME)
+
+reg("C18",
+    "all labelled shapes x {no DAG argument, roots take a DAG argument} x caching run {whole DAG, each single target, cache_deps_of=[n] for each n} x restart run {same selection, whole DAG, cache_deps_of=[n] for each n (thorough: each single target)} "
+    "x restart input {same, different}; the restart happens on a freshly built instance of the same DAG (nothing but the file is carried over). Oracle: the pickle holds the token of every node the caching run executed "
+    "(minus n for cache_deps_of=[n]); during the restart no node whose result is in the file is entered, every other selected node is entered exactly once and receives the cached tokens, the returned tuple carries the cached tokens; "
+    "cache_deps_of round trip enters exactly n. states = runs. non-trivial = pairs whose restart selection contains a cached node",
+    "N<=3 all shapes, N=4 shapes with <=3 edges", "N<=4 all shapes, restart also by single target", HIST_ASSUME)
+
+reg("C19",
+    "all labelled shapes (roots take the DAG argument x; dependency forms by rotation incl. indexed and activation-flag edges; optionally a defaulted DAG argument) x EVERY pair (inputs subset of nodes + x, outputs subset of nodes), "
+    "inputs=Ellipsis, single alias vs list, alias forms {id, node reference, tag}, an ambiguous tag, is_async in {None, True, False}, input values = distinguishable tokens (truthy and falsy for flag uses). "
+    "Oracle: reference needs-closure (outputs and their ancestors, stopping at inputs) -> ValueError iff a DAG argument without default is needed and not supplied, or an input is an ancestor of another input, or an alias is ambiguous; "
+    "otherwise the composed DAG enters exactly the needed nodes once, each with the substituted arguments, and returns the outputs' tokens; the original DAG is validated before and after. inputs/outputs overlap is accepted either way. "
+    "states = (inputs, outputs) pairs evaluated. non-trivial = pairs with non-empty inputs and outputs that run, or pairs that must be refused",
+    "N<=3 all shapes (2 rotations), N=4 shapes with <=3 edges", "N<=4 all shapes", HIST_ASSUME)
+
+reg("C16",
+    "scenarios of 2-3 OS threads x 1-2 operations each over {call the shared DAG with own argument, build a DAG, build with a pause inside the describing function, build a DAG nesting the shared DAG, build a second DAG, "
+    "bare call of a decorated function under TAWAZI_EXECNODE_OUTSIDE_DAG_BEHAVIOR = ignore / warning / error}; ALL interleavings at synchronisation points (operations of the cooperative lock that replaces the build lock, pauses, operation boundaries), "
+    "and ALL interleavings at every source line of the tawazi package (sys.settrace) within the preemption bound (iterative context bounding). Oracle: every operation's outcome equals its outcome when run alone; every DAG built under "
+    "concurrency has the node table (ids, argument references, flags, constants, edges) of the DAG built alone and returns the same value on a probe input; no thread is left blocked. "
+    "states = distinct (points reached per thread, running thread) configurations at choice points. non-trivial = schedules with at least one real choice",
+    "10 scenarios at sync points (unbounded); 6 scenarios at line points with <= 1 preemption",
+    "10 scenarios at sync points; 10 scenarios at line points with <= 2 preemptions",
+    ["scenario DAGs use main-thread nodes only, so no thread exists that the baton scheduler does not own; the pool and the future sets are per-execution locals",
+     "line granularity is the finest preemption grain CPython exposes to sys.settrace; library frames (networkx, asyncio, pydantic) are not preemptible"])
